@@ -646,7 +646,7 @@ def run_cli(argv, vfs, inj, device):
     return status, out.getvalue(), err.getvalue(), exc
 
 
-def api_twin(req, device, device_key):
+def api_twin(req, device, device_key, want_wallet=False):
     """The library API result for the same source secret, network, account and interval (unfiltered dict)."""
     from btc_hd_wallet.paper_wallet import PaperWallet
     cmd = req["command"]
@@ -669,7 +669,10 @@ def api_twin(req, device, device_key):
         w = PaperWallet.from_extended_key(extended_key=s["xkey"])
     else:
         raise ValueError("no command")
-    return w.generate(account=account, interval=interval), w.testnet, account, interval
+    full = w.generate(account=account, interval=interval)
+    if want_wallet:
+        return full, w.testnet, account, interval, w
+    return full, w.testnet, account, interval
 
 
 def _run_child(plan):
@@ -781,10 +784,31 @@ def _run_child(plan):
              (prop == "C15" and req["paranoia"] and not plan["expected_invalid"]))
         if need_twin:
             try:
-                full, tnet, account, interval = api_twin(req, device, plan["device_key"])
+                full, tnet, account, interval, tw = api_twin(req, device, plan["device_key"], want_wallet=True)
                 twin = {"full": full, "testnet": tnet, "account": account, "interval": interval}
             except Exception as e:
                 twin_exc = type(e).__name__
+        # ---- C15, API level: a HISTORY of exports to one path on the simulated disk. The filtered data is exported
+        # (library default: overwrite) over what an earlier, longer export or another program left there; what the
+        # path holds afterwards is "the paranoia-filtered output" and is judged like any other channel.
+        api_hist = None
+        if prop == "C15" and twin is not None and req["paranoia"] and not crash_plan and plan["seed"] % 3 == 0:
+            hp = "/simfs/out/api-export-%d.json" % (plan["seed"] % 7)
+            pre = ["full_export_first", "longer_foreign_file", "fresh", "full_export_first"][(plan["seed"] // 3) % 4]
+            api_hist = {"path": hp, "pre": pre, "exc": None, "content": None}
+            try:
+                if pre == "full_export_first":
+                    tw.export_wallet(file_path=hp, data=twin["full"])
+                elif pre == "longer_foreign_file":
+                    vfs.put_file(hp, (SENTINEL_PRE * 4000)[:len(json.dumps(twin["full"], indent=4)) + 977])
+                tw.export_wallet(file_path=hp, data=cli.paranoia_mode(data=twin["full"]))
+            except Exception as e:
+                api_hist["exc"] = type(e).__name__
+            try:
+                d_, name_, node_, _ = vfs._walk(hp, follow=True)
+                api_hist["content"] = node_.data.decode("utf-8", "replace") if node_ is not None and node_.kind == "file" else None
+            except OSError:
+                pass
     finally:
         device.uninstall()
         vfs.uninstall()
@@ -891,6 +915,18 @@ def _run_child(plan):
                     add("C15/secret-in-output/" + kind,
                         {"clause": "secret-in-output", "kind": kind, "channel": chname.split(":")[0]},
                         dict(ctx, channel=chname, what=what))
+            if api_hist is not None:
+                stats_extra["api_export_history"] = {api_hist["pre"]: 1}
+                if api_hist["exc"] is None:
+                    txt = api_hist["content"] or ""
+                    for kind, what in cm.scan_for_secrets(txt, strings, scalars, words_set):
+                        add("C15/secret-in-output/" + kind,
+                            {"clause": "secret-in-output", "kind": kind, "channel": "api-export-file"},
+                            dict(ctx, channel="file written by export_wallet(data=paranoia_mode(...)) after: " + api_hist["pre"],
+                                 what=what, tail=txt[-160:]))
+                    if not same_json(txt, Jpar):
+                        add("C15/public-data-changed", {"clause": "api-export-file-equals-filtered-json"},
+                            dict(ctx, history=api_hist["pre"], diff=_first_diff(txt, Jpar)))
             if status == 0:
                 try:
                     doc = json.loads(served_text or "")
